@@ -479,6 +479,78 @@ func (c *Ctx) pruneGuards() {
 					missing = append(missing, f)
 				}
 			}
+			// a prune written as a loop up the path: the node whose emptiness is tested must be the node of the
+			// current step - when the entry deleted changes from iteration to iteration and the tested node does not,
+			// every ancestor is dropped because the leaf is empty
+			if l := ir.InnermostLoop(ir.Loops(fn), call.Block()); l != nil {
+				definedIn := func(v ssa.Value) bool {
+					in, ok := v.(ssa.Instruction)
+					return ok && in.Block() != nil && l.Blocks[in.Block()]
+				}
+				mapVaries := false
+				for v := ir.SeeThrough(call.Common().Args[0]); v != nil; {
+					if definedIn(v) {
+						if _, isPhi := v.(*ssa.Phi); isPhi || true {
+							// loaded / indexed inside the loop from something that changes with the iteration
+							mapVaries = true
+						}
+					}
+					switch x := v.(type) {
+					case *ssa.UnOp:
+						v = x.X
+						continue
+					case *ssa.FieldAddr:
+						v = x.X
+						continue
+					case *ssa.IndexAddr:
+						if definedIn(x.Index) {
+							mapVaries = true
+						}
+						v = x.X
+						continue
+					}
+					break
+				}
+				// the node tested: root of the field loads in the loop's conditions
+				testedInvariant, testedAny := true, false
+				for b := range l.Blocks {
+					iff, ok := b.Instrs[len(b.Instrs)-1].(*ssa.If)
+					if !ok {
+						continue
+					}
+					var visit func(v ssa.Value, d int)
+					visit = func(v ssa.Value, d int) {
+						if d > 6 || v == nil {
+							return
+						}
+						switch x := v.(type) {
+						case *ssa.BinOp:
+							visit(x.X, d+1)
+							visit(x.Y, d+1)
+						case *ssa.Call:
+							for _, a := range x.Common().Args {
+								visit(a, d+1)
+							}
+						case *ssa.UnOp:
+							if fa, ok := x.X.(*ssa.FieldAddr); ok {
+								if named, ok2 := derefNamedType(fa.X.Type()); ok2 && named == node.Obj().Name() {
+									testedAny = true
+									root := ir.SeeThrough(fa.X)
+									if definedIn(root) {
+										testedInvariant = false
+									}
+								}
+								return
+							}
+							visit(x.X, d+1)
+						}
+					}
+					visit(iff.Cond, 0)
+				}
+				if mapVaries && testedAny && testedInvariant {
+					missing = append(missing, "(the node tested does not change with the loop: the emptiness of one node decides about every entry the loop deletes)")
+				}
+			}
 			c.R.Check(len(missing) == 0, ruleT4, fmt.Sprintf("%s:prune(%s)-tests-all-content", fn.Name(), node.Obj().Name()), c.P.InstrPos(call),
 				fmt.Sprintf("the child is removed only when %v are all empty", content),
 				fmt.Sprintf("a %s is removed from its parent without testing that its %v is empty: removing one entry silently drops another one that lives in (or below) the pruned node", node.Obj().Name(), missing))
@@ -629,4 +701,15 @@ func mutatesPublishParam(fn *ssa.Function, p *ssa.Parameter, depth int) string {
 		}
 	}
 	return ""
+}
+
+// derefNamedType: the name of the named struct type t points to.
+func derefNamedType(t types.Type) (string, bool) {
+	if p, ok := t.Underlying().(*types.Pointer); ok {
+		t = p.Elem()
+	}
+	if n, ok := t.(*types.Named); ok {
+		return n.Obj().Name(), true
+	}
+	return "", false
 }
